@@ -101,6 +101,31 @@ def stepOp (tok : List String) (impl : Option String) : Unit × String × String
     | some key, some nonce, some ctr, some input, some old =>
       ((), canon (ChaCha20.applyInto key nonce input ctr old), verdict "rfc8439" (canon (Spec.chacha20 key nonce ctr input)) impl)
     | _, _, _, _, _ => badArgs
+  | ["applyinplace", key, nonce, ctr, buf] =>
+    match fixedArg 32 key, fixedArg 12 nonce, u32Arg ctr, bytesArg buf with
+    | some key, some nonce, some ctr, some buf =>
+      ((), canon (ChaCha20.applyInPlace key nonce buf ctr), verdict "inplace" (canon (Spec.chacha20 key nonce ctr buf)) impl)
+    | _, _, _, _ => badArgs
+  | ["inplacetwice", key, nonce, ctr, buf] =>
+    match fixedArg 32 key, fixedArg 12 nonce, u32Arg ctr, bytesArg buf with
+    | some key, some nonce, some ctr, some buf =>
+      ((), canon (ChaCha20.applyInPlace key nonce (ChaCha20.applyInPlace key nonce buf ctr) ctr),
+        verdict "inplace-involution" (canon buf) impl)
+    | _, _, _, _ => badArgs
+  | ["applyalias-longer", key, nonce, ctr, vec, n] =>
+    match fixedArg 32 key, fixedArg 12 nonce, u32Arg ctr, bytesArg vec, n.toNat? with
+    | some key, some nonce, some ctr, some vec, some n =>
+      if n > vec.length then badArgs else
+      ((), canon (ChaCha20.applyAliased key nonce vec n ctr), verdict "aliased" (canon (Spec.chacha20 key nonce ctr (vec.take n))) impl)
+    | _, _, _, _, _ => badArgs
+  | ["applyalias-shorter", key, nonce, ctr, vec, n] =>
+    match fixedArg 32 key, fixedArg 12 nonce, u32Arg ctr, bytesArg vec, n.toNat? with
+    | some key, some nonce, some ctr, some vec, some n =>
+      if n ≤ vec.length then badArgs else
+      -- only the bytes that were live input are determined: they are the RFC encryption of `vec`
+      let r := ChaCha20.applyAliased key nonce vec n ctr
+      ((), s!"{r.length}:{canon (r.take vec.length)}", verdict "aliased" s!"{n}:{canon (Spec.chacha20 key nonce ctr vec)}" impl)
+    | _, _, _, _, _ => badArgs
   | ["twice", key, nonce, ctr, input] =>
     match fixedArg 32 key, fixedArg 12 nonce, u32Arg ctr, bytesArg input with
     | some key, some nonce, some ctr, some input =>
